@@ -59,6 +59,12 @@ CHECKS = {
  'C16': ('generated programs with known accept/reject verdict + icontract post-condition on the real DIP.parse re-checking every returned node',
          'Options (per-line and list form, with units), numeric/boolean/string conditions, anchored formats, dimension bounds and declared-without-value are generated with final values on, within 1e-9 of, or >= 1e-3 off each boundary; an independent evaluator decides accept/reject and both directions are verdicts; every environment any workload (and, in the thorough tier, the repository DIP tests) gets back from parse() is re-checked node by node against the constraints stored on it.',
          'Unanchored formats and values inside the tolerance bands are not generated; option units use hard-coded exact factors.', '5/C16'),
+ 'C17': ('reference interpreter with injections/imports/sources over generated programs; immutability of base environments and remote sources by before/after comparison',
+         'Programs define a tree of nodes and then inject or import from it (locally, from a second file, from a base environment) with units, slices and later modifications of source or host; host value/unit, re-rooted imports with unchanged value/type/unit/constraints (tested by a later violating modification), rejection of zero/several matches, readability of the returned environment and unchanged base/remote environments are compared with the model; recorded defects are attributed only when the smallest set of defect twins reproduces the whole observed outcome.',
+         'Trusts vt/refmodel/dip_ref_c17.py (reproduces the documented examples); units defined in a remote file are not assumed visible to the importing text.', '5/C17'),
+ 'C18': ('three reference evaluators (numerical, logical, template) over generated ASTs, observed through the solver classes and through node values after DIP.parse()',
+         'Numerical expressions (blank-separated + - * /, parentheses, documented functions, operands with units or references, custom units, requested result unit), logical expressions (unit-aware comparisons with the 1e-6 tolerance, negation, definedness, && before ||) and templates (format specs and slices) are generated from ASTs and evaluated by the real solvers; results must equal the model (rtol 1e-9) and sums of different dimension must raise.',
+         'Operands of exact comparisons are kept outside the ambiguous tolerance band; singular intermediates are skipped; hard-coded exact unit factors.', '5/C18'),
  'C19': ('external readers as oracle: gcc/g++/gfortran/rustc printer programs, bash declare -p, json/yaml/toml loaders and DIP re-parse read the real exporter output back',
          'For generated environments (every dtype/width, rank 1-3 arrays, none, quoted strings, boundary integers, 17-digit floats, dotted paths, units) and every back-end/option/selection the exported text is compiled or loaded by the format own reader and names, symbol set, declared type/width/signedness, shape, element order and values are compared with the environment; known defects are recognised by exact read-back signatures (buggy twins) and the affected symbols are removed and the file re-read so the rest stays strict.',
          'Trusts gcc 12, g++ 12, gfortran 12, rustc, bash 5 and the Python json/yaml/tomllib loaders as readers of their own formats.', '5/C19'),
